@@ -233,6 +233,36 @@ def r10_5(ctx, rep):
                    "some differentiated variables (by prefix, by kind) stay algebraic while their derivative symbol exists", path=cfg.describe(w) if w else "")
 
 
+def _name_accessors_resolved(fn):
+    """a copy of fn in which a local bound exactly once to `<x>.name()` (an explanatory temporary for a symbol's name) is replaced by that call"""
+    from ..pyutil import ast_copy
+    fn = ast_copy(fn)
+    stores = {}
+    for n in ast.walk(fn):
+        if isinstance(n, ast.Name) and isinstance(n.ctx, ast.Store):
+            stores[n.id] = stores.get(n.id, 0) + 1
+    defs = {}
+    for st in ast.walk(fn):
+        if isinstance(st, ast.Assign) and len(st.targets) == 1 and isinstance(st.targets[0], ast.Name) and stores.get(st.targets[0].id) == 1 \
+                and isinstance(st.value, ast.Call) and isinstance(st.value.func, ast.Attribute) and st.value.func.attr == "name" and not st.value.args \
+                and isinstance(st.value.func.value, ast.Name):
+            defs[st.targets[0].id] = st
+    if not defs:
+        return fn
+
+    class T(ast.NodeTransformer):
+        def visit_Name(self, n):
+            return ast_copy(defs[n.id].value) if isinstance(n.ctx, ast.Load) and n.id in defs else n
+
+    for holder in ast.walk(fn):
+        for f_ in ("body", "orelse", "finalbody"):
+            lst = getattr(holder, f_, None)
+            if isinstance(lst, list):
+                lst[:] = [x for x in lst if not any(x is d for d in defs.values())] or [ast.Pass()]
+    T().visit(fn)
+    return ast.fix_missing_locations(fn)
+
+
 @SPEC.rule(
     "R10.6",
     "one derivative symbol per state: every creation of a der(<name>) symbol in Generator.get_derivative is dominated by "
@@ -241,7 +271,7 @@ def r10_5(ctx, rep):
 )
 def r10_6(ctx, rep):
     R = "R10.6"
-    fn = ctx.func(GEN, "Generator.get_derivative", R)
+    fn = _name_accessors_resolved(ctx.func(GEN, "Generator.get_derivative", R))
     site = GEN + ":Generator.get_derivative"
     cfg = CFG(fn, R)
     n = 0
@@ -257,10 +287,13 @@ def r10_6(ctx, rep):
                 if isinstance(c, ast.Call) and isinstance(c.func, ast.Attribute) and c.func.attr == "name":
                     subj = norm(c)
             guards = cfg.dominated_by(node.id, lambda x: assume_truth(x, "%s in self.derivative" % subj) is False)
-            from ..pyutil import stmt_list_of
-
-            block = stmt_list_of(st) or []
-            after = [norm(s) for s in block[block.index(st) + 1:]]
+            block = []
+            for holder in ast.walk(fn):
+                for f_ in ("body", "orelse", "finalbody"):
+                    lst = getattr(holder, f_, None)
+                    if isinstance(lst, list) and any(x is st for x in lst):
+                        block = lst
+            after = [norm(s) for s in block[[i for i, x in enumerate(block) if x is st][0] + 1:]] if block else []
             reg1 = "self.derivative[%s] = %s" % (subj, v) in after
             reg2 = any(a.startswith("self.nodes[") and a.endswith("[%s.name()] = %s" % (v, v)) for a in after)
             rep.ob(R, site, "creation of der(%s)" % subj, bool(guards) and reg1 and reg2,
@@ -275,6 +308,15 @@ def r10_6(ctx, rep):
                     sn = cfg.nodes[s]
                     if sn.kind == "stmt" and isinstance(sn.ast, ast.Return) and norm(sn.ast.value).startswith("self.derivative[%s]" % subj):
                         ok = True
+                    # ... or bound to the name that is returned (both branches ending in one `return <name>[...]`)
+                    if sn.kind == "stmt" and isinstance(sn.ast, ast.Assign) and isinstance(sn.ast.targets[0], ast.Name) \
+                            and norm(sn.ast.value).startswith("self.derivative[%s]" % subj):
+                        tgt = sn.ast.targets[0].id
+                        for s2 in cfg.reachable(sn.id):
+                            r2 = cfg.nodes[s2]
+                            if r2.kind == "stmt" and isinstance(r2.ast, ast.Return) and r2.ast.value is not None and any(
+                                    isinstance(x, ast.Name) and x.id == tgt for x in ast.walk(r2.ast.value)):
+                                ok = True
             rep.ob(R, site, "reuse of der(%s)" % subj, ok, "when the derivative exists already it must be returned, not re-created")
     if n < 2:
         raise MechanismMissing(R, "fewer than 2 derivative-creation sites found")
@@ -311,16 +353,25 @@ def r10_8(ctx, rep):
 )
 def r10_9(ctx, rep):
     R = "R10.9"
-    fn = ctx.func(GEN, "Generator.get_derivative", R)
+    from ..cfg import reaching_defs, def_value
+    fn = _name_accessors_resolved(ctx.func(GEN, "Generator.get_derivative", R))
     site = GEN + ":Generator.get_derivative"
+    cfg = CFG(fn, R)
     n = 0
-    for st in walk_local(fn):
+    for node in cfg.stmts():
+        st = node.ast
         if not (isinstance(st, ast.Assign) and isinstance(st.targets[0], ast.Subscript) and norm(st.targets[0].value) == "self.derivative"):
             continue
         n += 1
         key = st.targets[0].slice
         val = st.value
-        defs = [d.value for d in walk_local(fn) if isinstance(d, ast.Assign) and isinstance(val, ast.Name) and any(is_name(t, val.id) for t in d.targets)] if isinstance(val, ast.Name) else [val]
+        if isinstance(val, ast.Name):
+            # the definitions of the stored name that reach this store (another branch may bind the same name to the registered symbol)
+            rd = [d for d in reaching_defs(cfg, val.id).get(node.id, ()) if d != cfg.entry]
+            defs = [def_value(cfg.nodes[d], val.id) for d in rd]
+            defs = [d for d in defs if d is not None] if all(d is not None for d in defs) else []
+        else:
+            defs = [val]
         owner = norm(key.func.value) if isinstance(key, ast.Call) and isinstance(key.func, ast.Attribute) and key.func.attr == "name" else None
         fresh = bool(defs) and all(isinstance(d, ast.Call) and (call_name(d) or "").split(".")[-1] in ("_new_mx", "sym") and "der(" in norm(d) and owner is not None
                                    and ("%s.name()" % owner) in norm(d) for d in defs)
